@@ -400,6 +400,27 @@ def run(chk, tier):
     ns = bound_sites(chk, db, table, tier)
     if ns < 10:
         chk.analysis_broken("BOUND: only %d access sites analysed (floor 10)" % ns)
+    # ---- IT1: no algorithm dereferences a scan cursor that has not been compared with its range end since its last step
+    from ..rules import iters as _IT
+    cdb = D.load("checks")
+    n1 = 0
+    for f in cdb.funcs:
+        if not (f["file"].startswith("_algorithm/") or f["file"].startswith("_numeric/")) or f.get("kind") != "function":
+            continue
+        r = _IT.check_scan(chk, f)
+        if r is None or r[0] == "not-modelled":
+            continue
+        n1 += 1
+        chk.instance("IT1")
+        chk.obligation("IT1", astx.sig(f), r[0] == "ok", evaluations=r[2] if r[0] == "ok" else 1)
+        if r[0] != "ok":
+            var, node, what = r[1]
+            chk.violation("IT1", astx.sig(f), "unchecked-cursor", "%s: `%s` is %s (`%s`) on a path where it has not been compared "
+                          "with its range end since its last increment: an element outside the range is read" % (
+                              astx.loc(f, node), var, what, astx.show(node, 50)), {"where": astx.loc(f)})
+    if n1 < 60:
+        chk.analysis_broken("IT1: only %d algorithms with a modelled scan cursor (floor 60)" % n1)
+    _IT.counted_buffer_area(chk, cdb, ['_string/char_traits', '_cstring/', '_cwchar/', '_strings/cstr', '_algorithm/', '_memory/'])      # PTRCOUNT
     # ---- SHIFT: a shift count that can reach the promoted width of its left operand is undefined behaviour
     from ..rules import shift as _SH
     _SH.check(chk, D.load("checks"), ["_bit/", "_bitset/", "_random/", "_memory/", "_numeric/", "_math/", "_cstdlib/", "_strings/"], floor=30)
